@@ -167,6 +167,12 @@ func headerOf(in In) textproto.Header {
 		b.WriteString("From: undisclosed-authors:;\r\n")
 	case "twoaddr":
 		b.WriteString("From: A <a@" + in.From + ">, B <b@" + in.From2 + ">\r\n")
+	case "plainlist":
+		b.WriteString("From: a@" + in.From + ", b@" + in.From2 + "\r\n")
+	case "threeaddr":
+		b.WriteString("From: \"Chief, Exec\" <ceo@" + in.From + ">, intern@" + in.From2 + ", Third <c@" + in.From + ">\r\n")
+	case "dupaddr":
+		b.WriteString("From: a@" + in.From + ", A <a@" + in.From + ">\r\n")
 	case "twofields":
 		b.WriteString("From: A <a@" + in.From + ">\r\nFrom: B <b@" + in.From2 + ">\r\n")
 	case "grouptwo":
